@@ -5,7 +5,7 @@ import vlib
 TARGETS = ["Base/Corr.vo", "C11/Model.vo", "C11/Spec.vo", "C11/ProofsMap.vo", "C11/ProofsIter.vo", "C11/ProofsInv.vo",
            "C11/ProofsRef.vo",
            "C03/Model.vo", "C03/Corr.vo", "C03/Spec.vo", "C03/SpecTest.vo", "C03/ProofsDense.vo",
-           "C03/ProofsOps.vo", "C03/Props.vo"]
+           "C03/ProofsSem.vo", "C03/ProofsJoint.vo", "C03/ProofsOps.vo", "C03/Props.vo"]
 PROPS = ["C03/Props.v"]
 PARTIAL = ("Theorems are about the hand-written model coq/C03/Model.v (on top of the shared sparse-vector model "
            "coq/C11/Model.v: heap of cells + value map + ordered key set standing for the AVL index, justified by C19) of "
@@ -95,16 +95,6 @@ def known(ctx, binary):
             ctx.notes.append("known finding %s no longer reproduces: %s" % (f["id"], k["detail"]))
 
 
-def is_known(h):
-    """A hunt result that is one of the recorded findings (narrow match: id's op + failure text)."""
-    for f in known_list():
-        m = f.get("match", {})
-        ops = [o["op"] for o in h["case"]["ops"]]
-        if m.get("op") in ops and m.get("failure_contains", "\0") in h["failure"]:
-            return f
-    return None
-
-
 def run(ctx):
     ctx.cov["trusted_base"] = vlib.TRUSTED_BASE_COMMON + [
         "hook /repo/verif_c11.go (C11's read-only dump of the private map and AVL index keys of sparse vectors)",
@@ -127,13 +117,11 @@ def run(ctx):
     known(ctx, binary)
     h0 = hunt(ctx, binary, bad, broken)
     if h0:
-        f = is_known(h0)
-        if f:
-            ctx.known_finding(f["id"], f["what"])
-        else:
-            ctx.violation({"case": h0["case"], "failure": h0["failure"], "at": h0["at"], "broken": broken}, True,
-                          "result depends on storage / prior receiver content: " + h0["failure"])
-            return
+        # (the recorded finding C03-EQEPS0 is excluded inside the oracle itself, narrowly: the result of an
+        #  Equals call with epsilon <= 0 is not judged; it is replayed separately by known())
+        ctx.violation({"case": h0["case"], "failure": h0["failure"], "at": h0["at"], "broken": broken}, True,
+                      "result depends on storage / prior receiver content: " + h0["failure"])
+        return
     for f in failures:
         ctx.violation({"obligation": f["target"], "lemma": f["lemma"], "errors": f["errors"]}, False,
                       "proof obligation no longer checks: %s %s" % (f["target"], f["lemma"] or ""))
